@@ -40,15 +40,71 @@ package grpcutil
 //@   decreases n
 
 //@ func PercentEncodeMessage
+//@   modifies sbContent
 //@   ensures @printable forall i int :: 0 <= i && i < len(result) ==> result[i] >= 32 && result[i] <= 126
 //@   ensures @length len(result) == pctLen(msg, len(msg))
 //@   ensures @exact forall k int :: 0 <= k && k < len(msg) ==> pctAt(result, msg, k)
+//@   //# hence the wire examiner's scan of grpc-message accepts it: lemma encodedAccepted, whose
+//@   //# hypotheses are exactly @exact and @length (callers get scanOK(result) from it)
+//@   option nolemma:encodedAccepted
 //@   loop 0: invariant 0 <= i && i < len(msg) && 0 <= hexCount && hexCount <= i
 //@           invariant hexCount == 0 ==> forall k int :: 0 <= k && k < i ==> !escByte(msg[k])
 //@   loop 1: invariant 0 <= i && i < len(msg)
 //@           invariant forall k int :: 0 <= k && k < len(sbContent[out]) ==> sbContent[out][k] >= 32 && sbContent[out][k] <= 126
 //@           invariant len(sbContent[out]) == pctLen(msg, i)
 //@           invariant forall k int :: 0 <= k && k < i ==> pctAt(sbContent[out], msg, k)
+
+// The state of a left-to-right scan of a percent-encoded message after n bytes, as the
+// reference client's wire examiner does it: number of hex digits still owed (0..2), or -1
+// once a byte was found that should have been escaped or a hex digit is missing.
+//@ spec hexByte(c int) bool = (c >= 97 && c <= 102) || (c >= 65 && c <= 70) || (c >= 48 && c <= 57)
+//@ spec scanSt(s string, n int) int = n <= 0 ? 0 :
+//@     (scanSt(s, n - 1) < 0 ? 0 - 1 :
+//@      (scanSt(s, n - 1) > 0 ? (hexByte(s[n-1]) ? scanSt(s, n - 1) - 1 : 0 - 1) :
+//@       (s[n-1] == 37 ? 2 : (escByte(s[n-1]) ? 0 - 1 : 0))))
+//@ lemma scanStRange(s string, n int)
+//@   lemmaonly
+//@   requires true
+//@   ensures scanSt(s, n) >= 0 - 1 && scanSt(s, n) <= 2
+//@   induct scanStRange(s, n - 1) when n > 0
+//@   decreases n
+// a failed scan stays failed
+//@ lemma scanStSticky(s string, i int, n int)
+//@   lemmaonly
+//@   requires 0 <= i && i <= n && scanSt(s, i) < 0
+//@   ensures scanSt(s, n) < 0
+//@   induct scanStSticky(s, i, n - 1) when n > i
+//@   decreases n
+// one plain byte, or '%' and two hex digits, take the scan from "nothing owed" to "nothing owed"
+//@ lemma scanStepPlain(s string, p int)
+//@   lemmaonly
+//@   requires p >= 0 && scanSt(s, p) == 0 && s[p] != 37 && !escByte(s[p])
+//@   ensures scanSt(s, p + 1) == 0
+//@ lemma scanStepEscaped(s string, p int)
+//@   lemmaonly
+//@   requires p >= 0 && scanSt(s, p) == 0 && s[p] == 37 && hexByte(s[p+1]) && hexByte(s[p+2])
+//@   ensures scanSt(s, p + 1) == 2 && scanSt(s, p + 2) == 1 && scanSt(s, p + 3) == 0
+//@ lemma hexDigitIsHex(d int)
+//@   requires 0 <= d && d < 16
+//@   ensures hexByte(hexDigit(d))
+//@ lemma pctAcceptedStep(msg string, out string, k int)
+//@   lemmaonly
+//@   requires 0 < k && k <= len(msg) && pctAt(out, msg, k - 1) && scanSt(out, pctLen(msg, k - 1)) == 0
+//@   ensures scanSt(out, pctLen(msg, k)) == 0
+// what PercentEncodeMessage writes (pctAt for every byte of msg) is accepted by that scan:
+// after the encoding of the first k bytes the scan owes nothing and has not failed
+//@ lemma pctAccepted(msg string, out string, k int)
+//@   lemmaonly
+//@   requires 0 <= k && k <= len(msg) && (forall j int :: 0 <= j && j < len(msg) ==> pctAt(out, msg, j))
+//@   ensures scanSt(out, pctLen(msg, k)) == 0
+//@   induct pctAccepted(msg, out, k - 1) when k > 0
+//@   decreases k
+
+// a string is accepted by the scan: it never fails and ends owing nothing
+//@ spec scanOK(s string) bool = (forall k int :: 0 <= k && k <= len(s) ==> scanSt(s, k) >= 0) && scanSt(s, len(s)) == 0
+//@ lemma encodedAccepted(msg string, out string)
+//@   requires (forall j int :: 0 <= j && j < len(msg) ==> pctAt(out, msg, j)) && len(out) == pctLen(msg, len(msg))
+//@   ensures scanOK(out)
 
 // ---- metadata <-> header lists ----
 
